@@ -9,7 +9,7 @@ chk('C14', 'model_checking',
     'empties (quick depth 6: 1 508 states, 684 164 transitions; thorough depth 7: 8 190 states, 13.76 M transitions), so the invariant holds for histories of ANY length over '
     'that alphabet; every transition is executed on the real singleton (state reached by replaying its shortest history) in lock-step with a reference model; in every '
     'successor: sps positive int, fs = R*sps, dt = 1/fs, f0 = c/wavelength, the given values in force, t/w/dw consistent with N, no grid without N, customs exactly those '
-    'given since clean(), clean() == new instance incl. types. Plus 72 / 216 histories with a custom keyword of 18 kinds of value (None, containers, arrays, callables...) x 4 '
+    'given since clean(), clean() == new instance incl. types. Plus 288 / 360 histories with a custom keyword (4 / 5 names incl. leading-underscore and dunder-like ones) of 18 kinds of value (None, containers, arrays, callables...) x 4 '
     'placements, then clean(). Part B: menu of 183 public calls (devices, codecs, DSP, utils, signal operators; dtype, length-1, prime-length, long, layout, scale, boundary, '
     'container, optional-argument and chained-pipeline entries) on shared write-protected inputs under 4 ambient grids (one with N in force), + 20 grid-built entries (waveforms made on the grid in '
     'force) and 5 grids with an ODD sps (3,5,7,9,15); oracle for every call = the '
